@@ -143,8 +143,18 @@ def pointwise : Op
     | .ok rows => some [.list (rows.map (fun r => .list (r.map scoreVal)))]
   | _ => none
 
+/-- `C05.reducedHier nBottom mask vec` → filtered hierarchical vector | err indexError -/
+def reducedHierOp : Op
+  | [.int nb, .list mask, vv] => do
+    let m ← mask.mapM Val.bool?
+    let v ← vv.flts?
+    match reducedHier nb.toNat m v with
+    | none => some [errVal "indexError"]
+    | some r => some [ofFlts r, .int (Int.ofNat (nFree m))]
+  | _ => none
+
 def ops : List (String × Op) :=
   [("C05.ll", ll), ("C05.sens", sens), ("C05.indiv", indiv), ("C05.composed", composed),
-   ("C05.pointwise", pointwise)]
+   ("C05.pointwise", pointwise), ("C05.reducedHier", reducedHierOp)]
 
 end ChiDriver.C05
